@@ -1,6 +1,6 @@
 (** C01 — Each generated input is benchmarked once; each value is dropped once.
     Statements only; each closed by [exact] of a lemma in Proofs/Sample*.v. *)
-From DivanV Require Import Base.Res Model.Sample Proofs.Sample Proofs.SamplePlace Proofs.SamplePanic.
+From DivanV Require Import Base.Res Model.Sample Proofs.Sample Proofs.SamplePlace Proofs.SamplePanic Proofs.SampleMeaning.
 Local Open Scope nat_scope.
 
 (** For all six entry points [e], all declared type shapes [sh] ({ZST, sized} x
@@ -99,3 +99,71 @@ Theorem C01_nodouble_sample : forall e sh n cs u multi,
   sb_nodouble_local (obs (vis_of e sh multi) (sample_prog e sh n cs u)) = true.
 Proof. exact nodouble_sample. Qed.
 Print Assumptions C01_nodouble_sample.
+
+(** * What the monitor [sb_sample] means, for ANY event list it accepts (the
+    model's by [C01_sample_discipline]; an implementation log when the
+    violation search says [true]). [count P l] is the number of events of [l]
+    satisfying [P]. *)
+
+Theorem C01_meaning_generated_once : forall m l,
+  sb_sample m l = true -> m_gen m = true ->
+  forall i, count (is_gen_of i) l = if i <? m_n m then 1 else 0.
+Proof. exact gen_once. Qed.
+Print Assumptions C01_meaning_generated_once.
+
+Theorem C01_meaning_counted_once : forall m l,
+  sb_sample m l = true -> m_gen m = true ->
+  forall k i, count (is_count_of k i) l = if (i <? m_n m) && uses (m_cs m) k then 1 else 0.
+Proof. exact counted_once. Qed.
+Print Assumptions C01_meaning_counted_once.
+
+Theorem C01_meaning_called_once : forall m l,
+  sb_sample m l = true -> forall i, count (is_call_of i) l = if i <? m_n m then 1 else 0.
+Proof. exact calls_once. Qed.
+Print Assumptions C01_meaning_called_once.
+
+Theorem C01_meaning_output_dropped_once : forall m l,
+  sb_sample m l = true ->
+  forall i, count (is_dropout_of i) l = if (i <? m_n m) && m_odrop m then 1 else 0.
+Proof. exact dropout_once. Qed.
+Print Assumptions C01_meaning_output_dropped_once.
+
+(** Drops of input [i] by anybody (framework or benchmarked function): at most one. *)
+Theorem C01_meaning_input_dropped_at_most_once : forall m l,
+  sb_sample m l = true -> forall i, count (is_dropin_of i) l <= 1.
+Proof. exact dropin_at_most_once. Qed.
+Print Assumptions C01_meaning_input_dropped_at_most_once.
+
+Theorem C01_meaning_lent_input_dropped_once : forall m l,
+  sb_sample m l = true -> m_gen m = true -> m_ref m = true ->
+  forall i, i < m_n m -> count (is_fw_dropin_of i) l = if m_idrop m then 1 else 0.
+Proof. exact lent_dropped_once. Qed.
+Print Assumptions C01_meaning_lent_input_dropped_once.
+
+Theorem C01_meaning_by_value_never_dropped : forall m l,
+  sb_sample m l = true -> m_ref m = false -> count is_fw_dropin l = 0.
+Proof. exact by_value_never_dropped. Qed.
+Print Assumptions C01_meaning_by_value_never_dropped.
+
+Theorem C01_meaning_lent_never_dropped_by_callee : forall m l,
+  sb_sample m l = true -> m_ref m = true -> count is_udropin l = 0.
+Proof. exact lent_never_dropped_by_callee. Qed.
+Print Assumptions C01_meaning_lent_never_dropped_by_callee.
+
+(** Order: a count comes after the generation of its value; a call after the
+    generation and after the count by every existing counter; the drop of an
+    output after its call; the drop of a lent input after the drop of the
+    output computed from it. *)
+Theorem C01_meaning_order : forall m l1 e l2,
+  sb_sample m (l1 ++ e :: l2) = true ->
+  match e with
+  | OCount _ i => 1 <= count (is_gen_of i) l1
+  | OCall i _ =>
+      (m_gen m = true -> 1 <= count (is_gen_of i) l1)
+      /\ (m_gen m = true -> forall k, uses (m_cs m) k = true -> 1 <= count (is_count_of k i) l1)
+  | ODropOut i => 1 <= count (is_call_of i) l1
+  | ODropIn i => m_odrop m = true -> 1 <= count (is_dropout_of i) l1
+  | _ => True
+  end.
+Proof. exact happens_before. Qed.
+Print Assumptions C01_meaning_order.
